@@ -11,7 +11,7 @@ CONSTANTS Addrs <- McAddrs
  LeafOnly = TRUE
  MaxSlots = 1
  CanonSlots = TRUE
- Kinds = {"extra"}
+ Kinds = {"miner"}
  IdentByHash = TRUE
 INVARIANTS TypeOK ViewIsNearestWrite ForksIsolated PersistEqualsStableView
 PROPERTIES PruneExact WriteLocal ReadPure AttrInert
